@@ -12,8 +12,9 @@ from vlib import (InfraError, NPROC, OUT, Profile, build, gen_execution, judge_b
 
 
 def chunk(lst, n):
-    k = max(1, (len(lst) + n - 1) // n)
-    return [lst[i:i + k] for i in range(0, len(lst), k)]
+    """round-robin, so that the few expensive executions (scale batch) are spread over all processes"""
+    n = max(1, min(n, len(lst)))
+    return [lst[i::n] for i in range(n)]
 
 
 class SeqResult:
